@@ -19,9 +19,10 @@ func TestRun(t *testing.T) {
 		fmt.Fprintf(os.Stderr, "HARNESS: unknown VERIF_PROP %q\n", prop)
 		os.Exit(2)
 	}
-	thorough := os.Getenv("VERIF_TIER") == "thorough"
+	// (r.Tier is VERIF_TIER in a batch and the recorded tier in a replay: the
+	// thorough tier has one more configuration draw)
 	run := func(r *simcore.Run) {
-		ntfnsim.InBubble(t, r, func() { ntfnsim.RunOne(r, thorough) })
+		ntfnsim.InBubble(t, r, func() { ntfnsim.RunOne(r, r.Tier == "thorough") })
 	}
 	simcore.WorkerMain(simcore.Spec{Property: prop, Engine: "ntfnsim", Run: run, ShrinkBudget: 600})
 }
